@@ -189,16 +189,12 @@ func runC02_2(c *Ctx) {
 	hasReply := p.MethodObj(Root, "callCmd", "hasReply")
 	asyncCall := p.Fn(Root, "session", "AsyncCall")
 	handleReply := p.Fn(Root, "handlerCtx", "handleReply")
-	rd := p.Fn(Root, "session", "readDisconnected")
 	write := p.MethodObj(Root, "session", "write")
 	postWriteCall := p.MethodObj(Root, "pluginSingleContainer", "postWriteCall")
-	mapRange := p.MethodObj("github.com/henrylee2cn/goutil", "Map", "Range")
 	hrDefers := deferredClosures(handleReply)
 	var rangeCb *ssa.Function
-	for _, call := range CallsTo(rd, mapRange) {
-		if f := closureArg(call, 0); f != nil && len(CallsTo(f, cancelM)) > 0 {
-			rangeCb = f
-		}
+	if d := p.findDrain(); d != nil {
+		rangeCb = d.Cb
 	}
 	nDone, nCancel := 0, 0
 	for _, fn := range p.ShippedFuncs() {
@@ -305,8 +301,11 @@ func runC02_3(c *Ctx) {
 	c.Check(okA, "AsyncCall lock-before-publish", p.Pos(asyncCall.Pos()), "cmd.mu.Lock + deferred Unlock dominate callCmdMap.Store",
 		"AsyncCall publishes the call in the pending table without holding cmd.mu (with deferred unlock): a reply or disconnect can complete it while AsyncCall still sets its status")
 	// Range callback
-	rd := p.Fn(Root, "session", "readDisconnected")
-	for _, anon := range rd.AnonFuncs {
+	var cbs []*ssa.Function
+	if d := p.findDrain(); d != nil {
+		cbs = append(cbs, d.Cb)
+	}
+	for _, anon := range cbs {
 		cancels := CallsTo(anon, cancelM)
 		if len(cancels) == 0 {
 			continue
@@ -502,27 +501,40 @@ func runC02_6(c *Ctx) {
 	p := c.P
 	st := p.statusTable()
 	rd := p.Fn(Root, "session", "readDisconnected")
-	mapRange := p.MethodObj("github.com/henrylee2cn/goutil", "Map", "Range")
-	cancelM := p.MethodObj(Root, "callCmd", "cancel")
 	getStatus := p.MethodObj(Root, "session", "getStatus")
 	self := p.MethodObj(Root, "session", "readDisconnected")
-	var rng ssa.Instruction
-	for _, call := range CallsTo(rd, mapRange) {
-		if f := closureArg(call, 0); f != nil && len(CallsTo(f, cancelM)) > 0 {
-			rng = call
+	dr := p.findDrain()
+	isDrain := func(i ssa.Instruction) bool {
+		for _, x := range dr.InRd {
+			if x == i {
+				return true
+			}
 		}
+		return false
+	}
+	var rng ssa.Instruction
+	if dr != nil && len(dr.InRd) > 0 {
+		rng = dr.InRd[0]
 	}
 	if rng == nil {
 		c.Viol("readDisconnected drains the pending-call table", p.Pos(rd.Pos()), "no Range over the pending-call table with a cancelling callback: calls in flight at disconnect never complete")
 		return
 	}
-	c.Hold("readDisconnected drains the pending-call table", p.InstrPos(rng), "Range(callback -> cancel) present")
+	c.Hold("readDisconnected drains the pending-call table", p.InstrPos(rng), "Range(callback -> cancel) present at "+p.InstrPos(dr.Range))
 	// dominance over close / redial / hook
 	later := []*types.Func{p.MethodObj(Root+"/socket", "Socket", "Close"), p.MethodObj(Root, "session", "redialForClient"), p.MethodObj(Root, "pluginSingleContainer", "postDisconnect")}
 	okDom := true
 	for _, call := range AllCalls(rd) {
-		if IsCallTo(call, later...) && !Dominates(rng, call) {
-			okDom = false
+		if IsCallTo(call, later...) {
+			dom := false
+			for _, x := range dr.InRd {
+				if Dominates(x, call) {
+					dom = true
+				}
+			}
+			if !dom {
+				okDom = false
+			}
 		}
 	}
 	c.fact("dominance")
@@ -539,7 +551,7 @@ func runC02_6(c *Ctx) {
 	var bad string
 	vt := &ValTrack{P: p, Tracked: gs[0].(ssa.Value), Consts: st.bits}
 	vt.Visit = func(i ssa.Instruction, mask, fl uint32) (uint32, bool) {
-		if i == rng || IsCallTo(i, self) {
+		if isDrain(i) || IsCallTo(i, self) {
 			fl |= drained
 		}
 		return fl, false
